@@ -342,6 +342,11 @@ class Gen:
             self.features.add("gread")
             i = r.choice([0, 1, 2])
             w = r.random()
+            if self.chance(0.3):
+                # a read of another member through an OFFSET: not a read "by absolute index"
+                self.features.add("gread_relative")
+                k = r.choice([1, 1, 2])
+                return [("txn", "GroupIndex")] + self.int_ins(k) + [(r.choice(["+", "-"]),), ("gtxns", "Amount"), ("pop",)]
             if w < 0.45:
                 return [("gtxn", i, "Amount"), ("pop",)]
             if w < 0.7:
